@@ -5,7 +5,7 @@ path to a statement, `done` = statements completed on every path to it.  Nothing
 """
 import ast
 
-from ..cfgwalk import (Flow, Locals, FUNCS, LOOPS, unp, qualname, enclosing_function, enclosing_class,
+from ..cfgwalk import (Flow, Locals, FUNCS, unp, qualname, enclosing_function, enclosing_class,
                        enclosing_stmt, canon_cmp, linform, parents, assigned_locs, mentions)
 from ..frontend import AnchorMissing
 
@@ -284,7 +284,7 @@ def rule_publish(cx):
             if f.pol != isinstance(cnd.ops[0], ast.In):
                 rep.fail(R_F, P + "delivers whenever subscribers exist", "the fan-out only runs when %s" % f.text(), where=cx.where(rel, f.stmt))
     for f in site.event.facts:
-        if f not in known:
+        if f not in known and f.origin not in ("return", "raise"):     # those two are judged at the statement that leaves
             rep.incomplete(R_F, P + "delivers whenever subscribers exist", "the fan-out is conditional on %s, which the rule cannot interpret" % f.text(), where=cx.where(rel, f.stmt))
     # every way out of publish in front of the fan-out: only "no subscribers" may return, only the type test may raise
     skipped = []
@@ -717,7 +717,7 @@ def rule_logger(cx):
                 problems.append("the subscription is conditional on %s: filtered topics are never logged" % extra[0].text())
             elif e.loops[-1] is not loop or info["end"] is None or id(e.node) not in info["end"][1]:
                 problems.append("the subscription is not executed for every publisher")
-            tv, pv = tgt.elts[0].id, tgt.elts[1].id
+            tv = tgt.elts[0].id
             if len(c.args) != 4 or not is_core_expr(c.args[0]) or unp(c.args[1]) != tv:
                 problems.append("the subscriber is not created on self.core for the loop's topic: %s" % unp(c))
             else:
@@ -983,7 +983,6 @@ def rule_estimator(cx, ptable):
                 rep.check(R_P, I3, bool(ups), "`%s = <message time>` is not executed (after the step is computed) on every path to predict: the step stops being the time since the previous sample" % last,
                           where=cx.where(rel, pcall))
     # ---- rate limits
-    eps_of = {}
     for sensor, meth, key in (("accel", "imu_callback", "correct_accel"), ("mag", "mag_callback", "correct_mag")):
         fn = cx.fe.find_def(rel, "AttitudeEstimator.%s" % meth)
         fl, loc = cx.flow(fn), cx.locs(fn)
